@@ -76,7 +76,6 @@ def mt(k):
     return k[1] if isinstance(k, (list, tuple)) else BASE + k
 
 
-_os_scratch = []
 _os_cache = {}
 
 
@@ -84,17 +83,15 @@ def os_time(x):
     """Reference for 'the OS resolution': the st_mtime a file of the temp directory's filesystem reports after
     os.utime(path, (x, x)) (what OSFS.setinfo is documented to do); None when the OS refuses the value."""
     if x not in _os_cache:
-        if not _os_scratch:
-            import atexit
-            fd, path = tempfile.mkstemp(prefix="pyfs2verif_c19_t")
-            os.close(fd)
-            _os_scratch.append(path)
-            atexit.register(lambda: os.path.exists(path) and os.remove(path))
+        fd, path = tempfile.mkstemp(prefix="pyfs2verif_c19_t")
         try:
-            os.utime(_os_scratch[0], (float(x), float(x)))
-            _os_cache[x] = os.stat(_os_scratch[0]).st_mtime
+            os.close(fd)
+            os.utime(path, (float(x), float(x)))
+            _os_cache[x] = os.stat(path).st_mtime
         except (OSError, OverflowError, ValueError):
             _os_cache[x] = None
+        finally:
+            os.remove(path)
     return _os_cache[x]
 
 
@@ -817,7 +814,10 @@ def signature(case, fails):
 def shrink(case, sig, budget=120):
     """Drop source / destination entries (with their subtrees) while the signature persists."""
     def still(c):
-        fl = run_case(dict(c))
+        try:
+            fl = run_case(dict(c))
+        except Exception:  # noqa  (a shrunk case that no longer fits the call)
+            return False
         return bool(fl) and signature(c, fl) == sig
     cur = dict(case)
     progress = True
@@ -825,8 +825,8 @@ def shrink(case, sig, budget=120):
         progress = False
         for side in ("src", "dst"):
             for p in sorted(cur[side], reverse=True):
-                if cur.get("file") == p and side == "src":
-                    continue
+                if side == "src" and cur.get("file") and (cur["file"] == p or cur["file"].startswith(p + "/")):
+                    continue                    # the copied file and its parent directories stay
                 if side == "src" and cur.get("src_path") and (p == cur["src_path"] or cur["src_path"].startswith(p + "/")):
                     continue
                 spec = dict((q, v) for q, v in cur[side].items() if q != p and not q.startswith(p + "/"))
@@ -850,6 +850,7 @@ def shrink(case, sig, budget=120):
             if still(cand):
                 cur = cand
     cur.pop("_second_pass_calls", None)
+    cur.pop("time_rows", None)          # (describes the unshrunk trees)
     return cur
 
 
